@@ -39,7 +39,7 @@ func main() {
 	if *replay != "" {
 		lib.ReadReplay(*replay, &inputs)
 	} else {
-		inputs = fixedRuns()
+		inputs = append(fixedRuns(), faultMatrix()...)
 		r := lib.NewRand(*seed)
 		rb := r.Fork()
 		for k := 0; k < *n; k++ {
